@@ -389,17 +389,26 @@ def debug_noninterference_obligations(rep):
     if hdr is None or not re.fullmatch(r'(#[^\n]*\n|\n)*', hdr):
         probs.append('_output_header is not made of comment lines')
     fn = mod.functions.get('YPPythonCodeGenerator.generate')
+
+    def comment_text(e):
+        """is the value of e a concatenation of comment lines / blank lines, whatever the source-derived parts contain?"""
+        if isinstance(e, ast.Constant) and isinstance(e.value, str):
+            return re.fullmatch(r'(#[^\n\r]*\n|\n)*', e.value) is not None
+        if isinstance(e, ast.BinOp) and isinstance(e.op, ast.Add):
+            return comment_text(e.left) and comment_text(e.right)
+        if isinstance(e, ast.Call) and isinstance(e.func, ast.Attribute) and e.func.attr == 'join' and isinstance(e.func.value, ast.Constant) \
+                and e.func.value.value == '' and len(e.args) == 1 and isinstance(e.args[0], (ast.ListComp, ast.GeneratorExp)):
+            c = e.args[0]
+            g = c.generators[0]
+            return len(c.generators) == 1 and not g.ifs and isinstance(g.target, ast.Name) \
+                and ast.unparse(c.elt) == "'# ' + %s + '\\n'" % g.target.id \
+                and isinstance(g.iter, ast.Call) and isinstance(g.iter.func, ast.Attribute) and g.iter.func.attr == 'splitlines'
+        return False
+
     for n in core.walk_own(fn) if fn else []:
         if isinstance(n, ast.Assign) and isinstance(n.targets[0], ast.Name) and n.targets[0].id == 's':
-            if isinstance(n.value, ast.Constant):
-                if not re.fullmatch(r'(#[^\n]*\n|\n)*', n.value.value):
-                    probs.append('line %d: header text %r' % (n.lineno, n.value.value))
-            elif isinstance(n.value, ast.JoinedStr):
-                parts = [v.value if isinstance(v, ast.Constant) else 'X' for v in n.value.values]
-                if not re.fullmatch(r'(#[^\n]*\n|\n)*', ''.join(parts)):
-                    probs.append('line %d: header template %r' % (n.lineno, ''.join(parts)))
-            else:
-                probs.append('line %d: header %s' % (n.lineno, ast.unparse(n.value)[:40]))
+            if not comment_text(n.value):
+                probs.append('line %d: header %s' % (n.lineno, ast.unparse(n.value)[:60]))
     rep.add_checked('yp_generator.YPPythonCodeGenerator.generate.debug.header_is_comment_text', not probs, '; '.join(probs), 'ast',
                     function='yp_generator.YPPythonCodeGenerator.generate', witness=probs or None)
     # __str__ methods and the tracing wrapper are effect-free
